@@ -7,7 +7,7 @@ UNIT = dict(
     items=[
         ("const", "c", "CACHE_BUCKETS"),
         ("fn", "k", "can_replace_generation"),
-        ("impl", "k", "ClockCache", ["get", "get_for_record", "get_entry", "insert", "insert_for_record", "remove", "remove_for_record", "remove_entry", "insert_entry", "evict_entries", "record_entry"], {"header": "impl ClockCache {"}),
+        ("impl", "k", "ClockCache", ["get", "get_for_record", "get_entry", "insert", "insert_for_record", "remove", "remove_for_record", "remove_entry", "insert_entry", "evict_entries", "record_entry", "clear"], {"header": "impl ClockCache {"}),
         ("impl", "k", "RecordCacheEntry", ["value"], {"header": "impl RecordCacheEntry<'_> {"}),
     ],
     contracts="contracts.vc",
